@@ -241,7 +241,8 @@ func (g *Generator) generateWithoutSaving(parents []*theTypeInfo, t reflect.Type
 				}
 				return nil, err
 			}
-			refSchemaRef := RefSchemaRef
+			// a reference object of this generation's own: the package-level one is shared by all generators
+			refSchemaRef := openapi3.NewSchemaRef(RefSchemaRef.Ref, RefSchemaRef.Value)
 			g.SchemaRefs[refSchemaRef]++
 			ref := openapi3.NewSchemaRef(t.Name(), &openapi3.Schema{
 				OneOf: []*openapi3.SchemaRef{
